@@ -185,6 +185,8 @@ fn run_once(case: &C13Case, slow: u32, facet: Facet) -> CaseResult {
         let addr = probe.local_addr().unwrap();
         drop(probe);
         let accepts = Arc::new(AtomicUsize::new(0));
+        // connections the peer has seen end (EOF / reset from the client, or closed by the peer itself)
+        let closed = Arc::new(AtomicUsize::new(0));
         let mut acceptor: Option<tokio::task::JoinHandle<()>> = None;
 
         let mut labels_tls = false;
@@ -451,6 +453,23 @@ fn run_once(case: &C13Case, slow: u32, facet: Facet) -> CaseResult {
                             _ => {}
                         }
                     }
+                    // ---- a disable closes the open connection
+                    if name == "Disabled" && prev.map(|p| state_name(&p)) == Some("Connected") {
+                        let t0 = Instant::now();
+                        let limit = Duration::from_millis(1000 * slow as u64);
+                        while closed.load(Ordering::SeqCst) < accepts.load(Ordering::SeqCst) && t0.elapsed() < limit {
+                            tokio::time::sleep(Duration::from_millis(5)).await;
+                        }
+                        if closed.load(Ordering::SeqCst) < accepts.load(Ordering::SeqCst) {
+                            return Err(format!(
+                                "Disabled reported after Connected, but the peer still has an open connection {:?} later ({} accepted, {} ended)",
+                                limit,
+                                accepts.load(Ordering::SeqCst),
+                                closed.load(Ordering::SeqCst)
+                            ));
+                        }
+                        labels.push("disable_closed_the_connection");
+                    }
                     // ---- C14-b: announced delays follow the strategy, and are really waited
                     match state {
                         ClientState::Connected => failed_in_a_row = 0,
@@ -512,6 +531,7 @@ fn run_once(case: &C13Case, slow: u32, facet: Facet) -> CaseResult {
                                 Err(e) => return Err(format!("INFRA: rebind {}", e)),
                             };
                             let acc = accepts.clone();
+                            let closed_outer = closed.clone();
                             acceptor = Some(tokio::spawn(async move {
                                 loop {
                                     let (tcp, _) = match l.accept().await {
@@ -519,7 +539,16 @@ fn run_once(case: &C13Case, slow: u32, facet: Facet) -> CaseResult {
                                         Err(_) => return,
                                     };
                                     acc.fetch_add(1, Ordering::SeqCst);
+                                    let closed = closed_outer.clone();
                                     tokio::spawn(async move {
+                                        // whatever way this task ends, the connection is over
+                                        struct Over(Arc<AtomicUsize>);
+                                        impl Drop for Over {
+                                            fn drop(&mut self) {
+                                                self.0.fetch_add(1, Ordering::SeqCst);
+                                            }
+                                        }
+                                        let _over = Over(closed);
                                         if tls && env == Env::HandshakeStall {
                                             // hold the connection open without a single byte
                                             let mut tcp = tcp;
